@@ -9,6 +9,13 @@ let file : coq_N list ref = ref []
 let zeof = ref false
 let mm : mdat option ref = ref None
 let ml : mdat option ref = ref None
+let tb : stbl ref = ref { sample_sizes = []; uniform_size = N0; chunk_offsets = [] }
+
+let parse_chunks (s : string) : chunk list =
+  if s = "-" then []
+  else L.map (fun c -> match split_on ':' c with
+      | [a; b; c] -> { cnr = n_of_int (int_of_string a); cstart = n_of_int (int_of_string b); cn = n_of_int (int_of_string c) }
+      | _ -> failwith "bad chunk") (split_on ';' s)
 
 let orc_of s = L.map n_of_int (ints_of_csv s)
 let b2s b = if b then "1" else "0"
@@ -62,4 +69,20 @@ let () =
            if a = lenc && b = menc then Printf.printf "OK %s\n" id
            else Printf.printf "MISMATCH %s encode model_lazy=%s model_mem=%s\n" id a b
          | _ -> Printf.printf "MISMATCH %s encode no-model-context\n" id)
+      | ["T"; id; sizes; uni; offs] ->
+        tb := { sample_sizes = L.map n_of_int (ints_of_csv sizes); uniform_size = n_of_int (int_of_string uni);
+                chunk_offsets = L.map n_of_int (ints_of_csv offs) };
+        Printf.printf "OK %s\n" id
+      | ["S"; id; a; b; wl; orc; chunks; mr; lr] ->
+        (match !mm, !ml with
+         | Some m1, Some m2 ->
+           let a = n_of_int (int_of_string a) and b = n_of_int (int_of_string b) in
+           let ws = L.init (int_of_string wl) (fun _ -> n_of_int 170) in
+           let cs = parse_chunks chunks in
+           let rs () = Some { rpos = n_of_int 0; rorc = orc_of orc } in
+           let x = res_string (copy_sample_data true !file !zeof m1 (rs ()) !tb cs a b ws) in
+           let y = res_string (copy_sample_data true !file !zeof m2 (rs ()) !tb cs a b ws) in
+           if x = mr && y = lr then Printf.printf "OK %s\n" id
+           else Printf.printf "MISMATCH %s samples model_mem=%s model_lazy=%s\n" id x y
+         | _ -> Printf.printf "MISMATCH %s samples no-model-context\n" id)
       | _ -> Printf.printf "BADLINE %s\n" line)
